@@ -26,10 +26,14 @@ ASSUMPTIONS = ["simulated Slurm; all jobs succeed between steps", "an absent has
 KINDS = ["run", "run", "run_fault", "dry", "status", "touch", "clean", "edit", "edit", "toggle", "rename", "remove"]
 
 
+QUICK_BUDGET = {"cases": 160, "deadline_s": 110, "case_timeout_s": 150, "floors": {"steps": 1400, "store_comparisons": 1400, "status_comparisons": 1400, "record_changes": 120}}
+THOROUGH_FACTOR = 12  # thorough = the same workload with 12x the cases (floors scale along)
+
+
 def budget(tier):
-    if tier == "thorough":
-        return {"cases": 2000, "deadline_s": 900, "case_timeout_s": 300, "floors": {"steps": 18000, "store_comparisons": 18000, "status_comparisons": 18000, "record_changes": 6000}}
-    return {"cases": 160, "deadline_s": 110, "case_timeout_s": 150, "floors": {"steps": 1400, "store_comparisons": 1400, "status_comparisons": 1400, "record_changes": 120}}
+    from ..core import scaled_budget
+
+    return scaled_budget(QUICK_BUDGET, tier, THOROUGH_FACTOR, noscale=(), case_timeout_s=300)
 
 
 def gen_case(rng, idx, tier):
